@@ -790,6 +790,21 @@ func c19Partition(r *Run, ic *iterCopy) []string {
 		sizeAt, kindAt := -1, -1
 		sizeNeg := false
 		for i, d := range p.decisions {
+			// a set of kinds kept as a constant table: table[Kind(v)] / slices.Contains(table, Kind(v))
+			if set, ok := kindSetDecision(p, d.cond); ok {
+				const seq = uint64(1)<<uint(kArray) | uint64(1)<<uint(kSlice)
+				in := set
+				if !d.truth {
+					in = ^set
+				}
+				if in&^seq == 0 && !seqKind {
+					seqKind, kindAt = true, i
+				}
+				if in&seq == 0 {
+					notSeq[0], notSeq[1] = true, true
+				}
+				continue
+			}
 			bo, ok := d.cond.(*ssa.BinOp)
 			if !ok {
 				continue
@@ -1494,4 +1509,70 @@ func c19LenSSA(r *Run) {
 			r.Bad("R5", name, con, w.Pos(at), why)
 		}
 	}
+}
+
+// kindSetDecision: cond tests the kind of a reflect value against a set kept as a constant table -- a
+// map[reflect.Kind]bool or [N]bool indexed by the kind, or slices.Contains of a []reflect.Kind; returns the set for "true".
+func kindSetDecision(p *pwPath, cond ssa.Value) (uint64, bool) {
+	boolTable := func(t *constTable) (uint64, bool) {
+		if t == nil || !isBasicKind(t.valType, types.Bool) {
+			return 0, false
+		}
+		var set uint64
+		for i, k := range t.keys {
+			c, isC := t.vals[i].(*ssa.Const)
+			if !isC || c.Value == nil || c.Value.Kind() != constant.Bool || k.Kind() != constant.Int {
+				return 0, false
+			}
+			if n, exact := constant.Int64Val(k); exact && n >= 0 && n < 64 && constant.BoolVal(c.Value) {
+				set |= 1 << uint(n)
+			}
+		}
+		return set, true
+	}
+	isKindOf := func(v ssa.Value) bool {
+		v = p.resolve(v)
+		if cv, isConv := v.(*ssa.Convert); isConv {
+			v = p.resolve(cv.X)
+		}
+		_, _, ok := reflectValueCall(v, "Kind")
+		return ok
+	}
+	switch x := cond.(type) {
+	case *ssa.Lookup:
+		if x.CommaOk || !isKindOf(x.Index) {
+			return 0, false
+		}
+		ld, isLd := p.resolve(x.X).(*ssa.UnOp)
+		if !isLd || ld.Op != token.MUL {
+			return 0, false
+		}
+		g, isG := ld.X.(*ssa.Global)
+		if !isG || g.Pkg == nil {
+			return 0, false
+		}
+		return boolTable(constTablesOf(g.Pkg)[g])
+	case *ssa.UnOp:
+		if x.Op != token.MUL {
+			return 0, false
+		}
+		ia, isIA := x.X.(*ssa.IndexAddr)
+		if !isIA || !isKindOf(ia.Index) {
+			return 0, false
+		}
+		g, isG := ia.X.(*ssa.Global)
+		if !isG || g.Pkg == nil {
+			return 0, false
+		}
+		t := constTablesOf(g.Pkg)[g]
+		if t == nil || !t.isArray || t.isSlice {
+			return 0, false
+		}
+		return boolTable(t)
+	case *ssa.Call:
+		if pkg, name := staticCalleeName(x); pkg == "slices" && name == "Contains" && len(x.Call.Args) == 2 && isKindOf(x.Call.Args[1]) {
+			return kindTableSet(p.resolve(x.Call.Args[0]))
+		}
+	}
+	return 0, false
 }
